@@ -13,6 +13,7 @@ import (
 	"errors"
 	"fmt"
 	"io"
+	"strconv"
 	"strings"
 	"testing/iotest"
 
@@ -203,36 +204,32 @@ func mkReader(mode string, data []byte) io.Reader {
 	case "dataeof":
 		return iotest.DataErrReader(bytes.NewReader(data))
 	}
-	var k int
-	if n, _ := fmt.Sscanf(mode, "err:%d", &k); n == 1 {
-		return &errAfter{data: data, k: k}
+	if strings.HasPrefix(mode, "err:") {
+		return &errAfter{data: data, k: errK(mode)}
 	}
-	if n, _ := fmt.Sscanf(mode, "errd:%d", &k); n == 1 {
-		return &errAfter{data: data, k: k, same: true}
+	if strings.HasPrefix(mode, "errd:") {
+		return &errAfter{data: data, k: errK(mode), same: true}
 	}
 	panic("mkReader: unknown mode " + mode)
 }
 
 func isErrMode(mode string) bool { return strings.HasPrefix(mode, "err") }
 
-// errModes lists every error-after-k mode over a body of n bytes
+// errModes lists every error-after-k mode for k in [from, n]
 // (both = also the variant that returns the last bytes and the error in one call).
-func errModes(n int, both bool) []string {
+func errModes(from, n int, both bool) []string {
 	var out []string
-	for k := 0; k <= n; k++ {
-		out = append(out, fmt.Sprintf("err:%d", k))
+	for k := from; k <= n; k++ {
+		out = append(out, "err:"+strconv.Itoa(k))
 		if k > 0 && both {
-			out = append(out, fmt.Sprintf("errd:%d", k))
+			out = append(out, "errd:"+strconv.Itoa(k))
 		}
 	}
 	return out
 }
 
 func errK(mode string) int {
-	var k int
-	if n, _ := fmt.Sscanf(mode, "err:%d", &k); n == 1 {
-		return k
-	}
-	fmt.Sscanf(mode, "errd:%d", &k)
+	i := strings.IndexByte(mode, ':')
+	k, _ := strconv.Atoi(mode[i+1:])
 	return k
 }
